@@ -312,7 +312,15 @@ def handle (j : Json) : P Json := do
         | .ok t =>
           let outs ← list str (fieldD nj "dataOuts" (.arr #[]))
           let ty ← tyOfJson t
-          outT := outT ++ [(nm, outs.map fun o => (o, ty))]
+          -- `FunctionNode.output_annotation`: one output takes the return type; several outputs take the element types of a
+          -- `tuple[...]` return (`tuple[T, ...]`: every output is a `T`; another arity: no output is typed)
+          let typed : AL TypeCompat.Ty :=
+            if outs.length ≤ 1 then outs.map fun o => (o, ty)
+            else match ty with
+              | .gen "tuple" [e, .ellipsis] => outs.map fun o => (o, e)
+              | .gen "tuple" args => if args.length == outs.length then outs.zip args else []
+              | _ => []
+          outT := outT ++ [(nm, typed)]
         | .error _ => pure ()
     let inner := g.nodes.filter fun n => n.kind == .graph && ((prog.getD n.inner default).nodes.any (·.isInterrupt))
     let b : Build.BuildInput := { nodes := g.nodes, graphName := g.name, strict := strict, explicitEdges := edges,
